@@ -7,30 +7,70 @@ import logging
 import numpy as np
 import z3
 
-from symx.core import SBool, SInt, SReal, assume, boolean, cur, explore, mfloat, mval, real, reals, rv
+from symx import fp
+from symx.core import SBool, SInt, SReal, Unsupported, assume, boolean, cur, explore, integer, mfloat, mval, real, reals, rv, solve
+from symx.dtmodel import IsoToken, SDateTime, STimeDelta
 from symx.runner import Ob
 from symx.stubs import shadow
+from symx.timeenv import time_env
 
 ID = "C19"
 TECHNIQUE = ("the real EphemerisImporter.registerAgent/importEphemerides, Target/SensingAgent.importState, CentralizedTaskingEngine.loadImportedObservations/"
              "_attachObsMetadata and the ImporterDatabase write methods are executed against a stub database whose content is chosen by the solver: for each agent id of a "
-             "small universe a z3 Bool says whether the database holds a row for it and whether it is registered; states are symbolic reals; the real SQLAlchemy Query "
-             "object the code builds is captured and its where-clause translated; z3 proves the faithful-import / error-iff-missing oracle on every path")
-FLOAT_SEMANTICS = "exact for ids/sets; state vectors symbolic reals; (time conversion bit-level claims are in C05/C09)"
+             "small universe a z3 Bool says whether the database holds a row for it and whether it is registered; states are symbolic reals; z3 proves the faithful-import / "
+             "error-iff-missing oracle on every path (O1, O3, O4).  O5/O7 run the real Scenario.stepForward (real clock, real EphemerisImporter, real PropagateRegistration, real "
+             "CentralizedTaskingEngine.assess) for consecutive steps with the two propagation flags, the per-epoch database content and the stored observations' targets as solver "
+             "Booleans.  O6 runs the real look-up of the importer and of the engine on a database written by the clock arithmetic of a producing run: start second, step asked and "
+             "step of the record are solver integers, Julian dates are bit-exact symbolic IEEE doubles (symx.fp, the real datetimeToJulianDate / ScenarioTime.convertToJulianDate), "
+             "and the where-clause of the real SQLAlchemy Query is evaluated on the symbolic joined row; z3 decides that the record is delivered iff its epoch is the one asked for")
+FLOAT_SEMANTICS = ("exact for ids/sets; state vectors symbolic reals (O1-O5, O7); O6: IEEE-754 double, exact round-to-nearest-even encoding for every Julian date the query or the "
+                   "database rows involve (models are bit-equal to CPython and are replayed against a real SQLite database)")
 ENCODED = ["resonaate.dynamics.importer:EphemerisImporter.registerAgent", "resonaate.dynamics.importer:EphemerisImporter.importEphemerides",
+           "resonaate.dynamics.importer:EphemerisImporter.__init__",
            "resonaate.agents.target_agent:TargetAgent.importState", "resonaate.agents.sensing_agent:SensingAgent.importState",
            "resonaate.tasking.engine.centralized_engine:CentralizedTaskingEngine.loadImportedObservations",
            "resonaate.tasking.engine.centralized_engine:CentralizedTaskingEngine._attachObsMetadata",
+           "resonaate.tasking.engine.centralized_engine:CentralizedTaskingEngine.assess",
+           "resonaate.tasking.engine.engine_base:TaskingEngine.saveObservations", "resonaate.tasking.engine.engine_base:TaskingEngine.setHandles",
+           "resonaate.scenario.scenario:Scenario.stepForward", "resonaate.scenario.clock:ScenarioClock.ticToc", "resonaate.scenario.clock:ScenarioClock.datetime_epoch",
+           "resonaate.parallel.agent_propagation:PropagateRegistration.generateSubmission", "resonaate.parallel.agent_propagation:PropagateRegistration.processResults",
+           "resonaate.agents.agent_base:Agent.prunePropagateEvents", "resonaate.agents.sensing_agent:SensingAgent.pruneTimeBiasEvents",
+           "resonaate.data.events:getRelevantEvents", "resonaate.data.events:handleRelevantEvents",
+           "resonaate.physics.time.stardate:datetimeToJulianDate", "resonaate.physics.time.stardate:JulianDate.getJulianDate",
+           "resonaate.physics.time.stardate:ScenarioTime.convertToJulianDate",
            "resonaate.data.importer_database:ImporterDatabase.insertData", "resonaate.data.importer_database:ImporterDatabase.deleteData",
            "resonaate.data.importer_database:ImporterDatabase.bulkSave"]
-BOUNDS = {"agents": "universe of 5 agent ids; every subset as database content (<= 5 rows) and every subset as registered agents (supersets, exact sets, subsets)",
-          "observations": "<= 3 stored observations per epoch over 2 sensors x 2 targets with symbolic sensor positions"}
-OUTSIDE = ["that the importer file is byte-identical afterwards (SQLAlchemy/SQLite behaviour)", "_insertData (private loader)", "SQLite's evaluation of the where-clause"]
-ASSUMPTIONS = ["ImporterDatabase.getData(query) returns the rows matching the query (stub: solver-chosen rows, at most one per agent id and epoch)",
-               "ray.get(handle) returns the sensor agent"]
-LEVEL_TEXT = ("Bounded symbolic verification over all database contents for a 5-agent universe: every registered agent receives exactly its own row, and the missing-ephemeris "
-              "error is raised iff some registered agent has no row - supersets with unrelated agents included, which the suite's single exact-set file never exercises.")
-LEVEL_NOTE = "Agent universe bounded (5); database replaced by a solver-chosen row set; storage layer trusted."
+BOUNDS = {"agents": "O1: universe of 5 agent ids; every subset as database content (<= 5 rows) and every subset as registered agents (supersets, exact sets, subsets)",
+          "observations": "O3: <= 3 stored observations per epoch over 2 sensors x 2 targets with symbolic sensor positions",
+          "mixed scenarios (O5)": "2 targets + 1 sensor (thorough: 2 sensors) + 1 unrelated agent id; both propagation flags free (all four mixes); 2 consecutive stepForward calls; per step "
+                                  "every subset of the ids as importer records (supersets, exact sets, gaps at either step); states of records / propagation / initial condition symbolic; "
+                                  "start 2021-03-30T17:00:00, dt 60 s (concrete clock)",
+          "routing (O7)": "2 targets, 2 sensors, 2 (thorough 3) consecutive steps, per step 2 stored observations each present or absent with target chosen by the solver; engine with realtime_obs false",
+          "epoch look-up (O6)": "start instant: a fixed day (quick 2021-03-30; thorough also 2018-12-01, 2024-02-28) at ANY whole second of the day (runs across midnight included); dt 60 s and 300 s "
+                                "(ephemerides quick: 60 s); step asked k and step of the record ki free in 1..12 (thorough 1..40); one record"}
+OUTSIDE = ["that the importer file is byte-identical afterwards (SQLAlchemy/SQLite behaviour)", "_insertData (private loader)",
+           "SQLite's evaluation of the where-clause (O5-O7 evaluate the where-clause the real code builds on the stub rows; the O6 replay runs it on a real in-memory SQLite database)",
+           "importer databases whose epoch rows were NOT written by RESONAATE's clock arithmetic (Julian date = ScenarioTime(t).convertToJulianDate(datetimeToJulianDate(start)), timestamp = "
+           "isoformat of the instant): O6 fixes that producer model", "sub-second start instants and fractional steps; start days other than the listed ones in the bit-exact obligation O6",
+           "the numerical content of a propagation (O5: the agent's own dynamics yield an arbitrary symbolic state) and of the filter update (O7 stops at the observations handed to EstUpdateRegistration)",
+           "realtime_obs engines mixing tasked and imported observations; decentralised engines; scenarios without an importer although a group is imported (RuntimeError branch)",
+           "O6 isoformat(timespec=...) is an order-preserving injective token of the instant: a look-up string in another format is only seen by O5/O7, which compare real strings at one start instant"]
+ASSUMPTIONS = ["ImporterDatabase.getData(query) returns the rows matching the query (O1/O3 stub: solver-chosen rows, at most one per agent id and epoch; O5-O7 stub: the rows of all epochs of the "
+               "run filtered by the where-clause of the REAL query, evaluated by the harness on (table, column) -> value)",
+               "ray.get(handle) returns the sensor agent; ray.put(x) is x",
+               "O5/O7: bare Scenario / agents / engine (object.__new__ + the attributes the real constructors set); EphemerisImporter built by its real constructor with ImporterDatabase -> stub; "
+               "PropagateExecutor + worker -> the real PropagateRegistration.generateSubmission/processResults around a propagation result that is a fresh symbolic state; ReductionParams.build, "
+               "eci2ecef, ecef2lla, EventStack, BehavioralConfig(ThreeSigmaObs false), EstPredictRegistration/EstUpdateRegistration (recorders) stubbed; output database without events",
+               "O6: datetime/timedelta -> integer calendar model (symx.dtmodel) with the day concrete and a fork at midnight; JulianDate/ScenarioTime re-based on symbolic doubles (symx.timeenv); float -> "
+               "double-engine float in the importer and engine modules; the database's epoch row of step ki carries ScenarioTime(ki*dt).convertToJulianDate(datetimeToJulianDate(start)) "
+               "(real code, as ScenarioClock.__init__ and julian_date_epoch compute it) and the timestamp token of start + ki*dt",
+               "O6 case split: a query not decided in 20 s is split over the step index k = 1..kmax (complete: 1 <= k <= kmax is a constraint); each case is a solver query"]
+LEVEL_TEXT = ("Bounded symbolic verification over all database contents for a small agent universe: every registered agent receives exactly its own row, and the missing-ephemeris "
+              "error is raised iff some registered agent has no row - supersets with unrelated agents included; through the real stepForward for every mix of realtime and imported "
+              "groups over consecutive steps with gaps at arbitrary epochs; stored observations reach the filter update of their target at their epoch; and the epoch look-up of "
+              "importer and engine is decided on bit-exact Julian dates for every start second of the day - the one-ulp disagreements between differently computed Julian dates are "
+              "too sparse and too configuration-dependent (start time of day) for the suite's noon-start fixtures.")
+LEVEL_NOTE = "Agent universe, step count and record count bounded; start day fixed per obligation in O6 (any second of the day); database replaced by solver-chosen rows filtered by the real query; storage layer trusted."
 
 U = [101, 102, 103, 104, 105]
 
@@ -190,16 +230,11 @@ def o1_import(rep):
         else:
             n_err += 1
         n += 1
+        if len(rep.violations) >= 5:  # (five replayed counterexamples are reported; the remaining paths of a broken tree add nothing)
+            continue
         rep.prove(f"import#{n}", z3.And(*goals), r.constraints, inputs=inputs, replay=replay_import,
                   sample="MissingEphemerisError iff a registered agent has no row; otherwise every registered agent holds exactly its own row's state and epoch")
-    # the query the real code built
-    if res and res[0].out[2].get("query") is not None:
-        q = res[0].out[2]["query"]
-        epoch = res[0].out[4]
-        wc = q.whereclause
-        ok = (wc is not None and wc.operator.__name__ == "eq" and wc.left.key == "timestampISO" and wc.right.value == epoch.isoformat(timespec="microseconds"))
-        ents = [str(d["entity"].__name__) for d in q.column_descriptions]
-        rep.prove("query-shape", z3.BoolVal(bool(ok and ents == ["TruthEphemeris"] and "epochs" in str(q).lower())), [], sample="query = TruthEphemeris joined to Epoch where Epoch.timestampISO == epoch.isoformat(microseconds)")
+    # (that the query the real code builds selects exactly the records of the epoch is decided behaviourally in O6: the where-clause is evaluated there)
     if n_err == 0 or n_ok == 0:
         rep.error("reach", "both the error and the success outcome must be reachable")
     rep.reachable("superset-with-gap", [z3.Bool("reg_101"), z3.Not(z3.Bool("indb_101")), z3.Bool("indb_104"), z3.Bool("indb_105"), z3.Not(z3.Bool("reg_104")), z3.Not(z3.Bool("reg_105")),
@@ -325,24 +360,20 @@ def o3_observations(rep):
     for r in res:
         n += 1
         if r.exc is not None:
+            if len(rep.violations) >= 5:
+                continue
             # the real code raised for a feasible database content: replay it
             m = rep.feasible(f"raises#{n}", r.constraints)
             rep.prove(f"observations#{n}", z3.BoolVal(False), r.constraints, inputs=_rows_from_model, replay=replay_observations,
                       sample=f"loadImportedObservations must not raise ({type(r.exc).__name__})")
             continue
         rows, out, cap, epoch = r.out
+        if len(rep.violations) >= 5:  # (five replayed counterexamples are reported; the remaining paths of a broken tree add nothing)
+            continue
         want = _wanted(rows)
         ok = [id(x) for x in out] == [id(x) for x in want] and all(x.measurement is meas[x.sensor_id] for x in out)
         rep.prove(f"observations#{n}", z3.BoolVal(bool(ok)), r.constraints, inputs=_rows_from_model, replay=replay_observations,
                   sample="every stored observation (distinct sensor/target pair) is returned once, in order, with its sensor's measurement attached (real Observation rows, bare real SensingAgent)")
-    ok_runs = [r for r in res if r.exc is None]
-    if ok_runs:
-        q = ok_runs[-1].out[2].get("query")
-        epoch = ok_runs[-1].out[3]
-        if q is not None:
-            wc = q.whereclause
-            ok = (wc is not None and wc.operator.__name__ == "eq" and wc.left.key == "timestampISO" and wc.right.value == epoch.isoformat(timespec="microseconds"))
-            rep.prove("query-shape", z3.BoolVal(bool(ok)), [], sample="Observation joined to Epoch where Epoch.timestampISO == epoch.isoformat(microseconds)")
     if n < 8:
         rep.error("reach", "too few database contents explored")
 
@@ -381,7 +412,732 @@ def o4_readonly(rep):
     rep.prove("write-methods-touch-nothing", z3.BoolVal("session" not in src.split('"""')[-1] and "_getSessionScope" not in src), [], sample="insertData/deleteData/bulkSave bodies only raise")
 
 
-REPLAYS = {"O1": replay_import, "O3": replay_observations}
+# ==================================================================================
+# shared: the where-clause of the REAL Query evaluated on joined rows
+# ==================================================================================
+def _where(clause, row):
+    """bool / SBool: value of the where-clause of a real SQLAlchemy Query on one joined row {(table name, column key): value}."""
+    from sqlalchemy.sql import operators
+    from sqlalchemy.sql.elements import BinaryExpression, BindParameter, BooleanClauseList, Grouping
+
+    if clause is None:
+        return True
+    if isinstance(clause, Grouping):
+        return _where(clause.element, row)
+    if isinstance(clause, BooleanClauseList):
+        vals = [bool(_where(c, row)) for c in clause.clauses]
+        if clause.operator is operators.and_:
+            return all(vals)
+        if clause.operator is operators.or_:
+            return any(vals)
+        raise Unsupported(f"where-clause operator {clause.operator}")
+    if isinstance(clause, BinaryExpression):
+        def side(x):
+            if isinstance(x, BindParameter):
+                return x.value
+            key = (getattr(getattr(x, "table", None), "name", None), getattr(x, "key", None))
+            if key in row:
+                return row[key]
+            raise Unsupported(f"where-clause operand {x!r} (the stub tables hold {sorted(map(str, row))})")
+        a, b = side(clause.left), side(clause.right)
+        name = clause.operator.__name__
+        ops = {"eq": lambda: a == b, "ne": lambda: a != b, "le": lambda: a <= b, "lt": lambda: a < b, "ge": lambda: a >= b, "gt": lambda: a > b}
+        if name not in ops:
+            raise Unsupported(f"where-clause operator {name}")
+        return ops[name]()
+    raise Unsupported(f"where-clause element {type(clause).__name__}")
+
+
+def _tables():
+    from resonaate.data.ephemeris import TruthEphemeris
+    from resonaate.data.epoch import Epoch
+    from resonaate.data.observation import Observation
+
+    return {"epoch": Epoch.__tablename__, "ephem": TruthEphemeris.__tablename__, "obs": Observation.__tablename__}
+
+
+def _entity_name(query):
+    try:
+        return str(query.column_descriptions[0]["entity"].__name__)
+    except Exception:  # noqa: BLE001
+        return None
+
+
+_HARNESS_EXC = (AttributeError, TypeError, NameError, Unsupported, ImportError)
+
+
+# ==================================================================================
+# O5: every mix of realtime and imported agents through the real Scenario.stepForward
+# ==================================================================================
+MIX_START = _dt.datetime(2021, 3, 30, 17, 0, 0)
+MIX_DT = 60.0
+MIX = {"quick": {"targets": (11, 12), "sensors": (21,), "extra": (99,), "steps": 2},
+       "thorough": {"targets": (11, 12), "sensors": (21, 22), "extra": (99,), "steps": 2}}
+
+
+def _mix_state(kind, step, aid, concrete):
+    """The 6-state a record / a propagation / the initial condition carries: solver variables, or distinct codes in a replay."""
+    if concrete:
+        base = {"row": 1.0e5, "prop": 2.0e5, "old": 3.0e5}[kind]
+        return np.array([base + 1000.0 * step + aid + k / 8.0 for k in range(6)], dtype=float)
+    return np.array([real(f"{kind}{step}_{aid}_{k}") for k in range(6)], dtype=object)
+
+
+def _run_mixed(cfg, choose, concrete=False):
+    """`steps` real stepForward calls of a bare Scenario whose targets / sensors are realtime or imported as the two propagation flags say.
+
+    choose(name) -> bool decides the flags and, per step and agent id, whether the importer database holds a record."""
+    import types
+
+    from resonaate.agents import sensing_agent as SA
+    from resonaate.agents import target_agent as TA
+    from resonaate.dynamics import importer as IM
+    from resonaate.parallel import agent_propagation as AP
+    from resonaate.physics.time.stardate import ScenarioTime, datetimeToJulianDate
+    from resonaate.scenario import clock as CK
+    from resonaate.scenario import scenario as SC
+    from resonaate.scenario.config.propagation_config import PropagationConfig
+
+    targets, sensors, extra, nsteps = cfg["targets"], cfg["sensors"], cfg["extra"], cfg["steps"]
+    rt_t, rt_s = choose("rt_targets"), choose("rt_sensors")
+    log = logging.getLogger("symx")
+    log.setLevel(logging.CRITICAL)
+    logging.getLogger("resonaate").setLevel(logging.CRITICAL + 1)  # (the real importer logs the missing ids before raising)
+    clock = object.__new__(CK.ScenarioClock)
+    clock.datetime_start, clock.julian_date_start = MIX_START, datetimeToJulianDate(MIX_START)
+    clock.dt_step, clock.time, clock.initial_time, clock.logger = ScenarioTime(MIX_DT), ScenarioTime(0), ScenarioTime(0), log
+    ctx = {"step": 0, "propagated": [], "consulted": {}}
+    T = _tables()
+
+    def agent(base, aid, realtime):
+        a = object.__new__(base)
+        a.__dict__.update(_id=aid, _realtime=realtime, _time=clock.time, _dt_step=clock.dt_step, julian_date_start=clock.julian_date_start, datetime_start=clock.datetime_start,
+                          _dynamics="dynamics-token", _station_keeping=[], propagate_event_queue=[], sensor_time_bias_event_queue=[], _logger=log,
+                          _truth_state=_mix_state("old", 0, aid, concrete), _previous_state=None, _ecef_state=None, _lla_state=None)
+        return a
+
+    # the importer database: records of every epoch of the run; the REAL query's where-clause selects
+    class DB:
+        def getData(self, query, multi=True):
+            if _entity_name(query) != "TruthEphemeris":
+                return [] if multi else None
+            out = []
+            for s in range(0, nsteps + 1):
+                jd = float(ScenarioTime(s * MIX_DT).convertToJulianDate(clock.julian_date_start))
+                iso = (MIX_START + _dt.timedelta(seconds=s * MIX_DT)).isoformat(timespec="microseconds")
+                for u in (*targets, *sensors, *extra):
+                    cols = {(T["epoch"], "timestampISO"): iso, (T["epoch"], "julian_date"): jd, (T["ephem"], "julian_date"): jd, (T["ephem"], "agent_id"): u}
+                    if not bool(_where(query.whereclause, cols)):
+                        continue
+                    if s == 0:
+                        continue  # (the initial epoch is never imported)
+                    has = choose(f"has_{s}_{u}")
+                    ctx["consulted"][(s, u)] = has
+                    if has:
+                        row = Row(u, concrete=True)
+                        row.eci, row.julian_date = list(_mix_state("row", s, u, concrete)), jd
+                        out.append(row)
+            return out if multi else (out[0] if out else None)
+
+    class Events:  # the output database: no events
+        def getData(self, query, multi=True):
+            return [] if multi else None
+
+    class Executor:
+        """Stands for PropagateExecutor + worker: the real PropagateRegistration makes the submission and takes the result; the agent's own dynamics yield `prop`."""
+
+        def __init__(self):
+            self.jobs = []
+
+        def enqueueJob(self, reg):
+            self.jobs.append(reg)
+
+        def join(self):
+            jobs, self.jobs = self.jobs, []
+            for reg in jobs:
+                sub = reg.generateSubmission()
+                ctx["propagated"].append((ctx["step"], sub.agent_id))
+                reg.processResults(AP.PropagateResult(agent_id=sub.agent_id, final_time=sub.final_time, prev_state=sub.init_eci, final_eci=_mix_state("prop", ctx["step"], sub.agent_id, concrete)))
+
+    sc = object.__new__(SC.Scenario)
+    sc.clock = clock
+    sc.current_julian_date = clock.julian_date_epoch
+    sc.database = Events()
+    sc.logger = log
+    sc.scenario_config = types.SimpleNamespace(propagation=PropagationConfig(target_realtime_propagation=rt_t, sensor_realtime_propagation=rt_s, truth_simulation_only=True))
+    sc.target_agents = {u: agent(TA.TargetAgent, u, rt_t) for u in targets}
+    sc._sensor_agents = {u: agent(SA.SensingAgent, u, rt_s) for u in sensors}
+    sc._estimate_agents = {}
+    sc._importer_db_path = "stub"
+    sc._ephem_importer = None
+    if not (rt_t and rt_s):  # as the real constructor: an importer whenever some group is imported
+        with shadow(IM, ImporterDatabase=lambda *a, **k: DB()):
+            sc._ephem_importer = IM.EphemerisImporter("stub")
+    sc._stepped_epochs = {}
+    sc._agent_propagator = Executor()
+    sc._estimate_predictor = sc._estimate_updater = types.SimpleNamespace(enqueueJob=lambda *a: None, join=lambda: None)
+    sc._target_store, sc._sensor_store, sc._estimate_store = {}, {}, {}
+    sc._tasking_engines = {}
+    agents = {**sc.target_agents, **sc._sensor_agents}
+    snaps, err, err_step = [], None, None
+    nul = lambda *a, **k: None  # noqa: E731
+    with shadow(SC, ray=types.SimpleNamespace(put=lambda x: x), EventStack=types.SimpleNamespace(logAndFlushEvents=nul)), \
+            shadow(AP, ReductionParams=types.SimpleNamespace(build=lambda d: None)), shadow(SA, eci2ecef=lambda x, when: x, ecef2lla=lambda x: x[:3]):
+        for s in range(1, nsteps + 1):
+            ctx["step"] = s
+            try:
+                sc.stepForward()
+            except _HARNESS_EXC:
+                raise
+            except Exception as e:  # noqa: BLE001
+                err, err_step = e, s
+                break
+            snaps.append({u: (list(a.eci_state), float(a.time), float(clock.time)) for u, a in agents.items()})
+    return {"rt_t": rt_t, "rt_s": rt_s, "snaps": snaps, "err": err, "err_step": err_step, "consulted": dict(ctx["consulted"]), "propagated": list(ctx["propagated"])}
+
+
+def _mix_expect(cfg, d):
+    """Independent oracle: (step at which the run must stop with MissingEphemerisError or None, {step: {agent: 'row' | 'prop'}})."""
+    imported = ([] if d["rt_targets"] else list(cfg["targets"])) + ([] if d["rt_sensors"] else list(cfg["sensors"]))
+    plan = {}
+    for s in range(1, cfg["steps"] + 1):
+        have = set(d["rows"].get(str(s), d["rows"].get(s, [])))
+        if any(u not in have for u in imported):
+            return s, plan
+        plan[s] = {u: ("row" if u in imported else "prop") for u in (*cfg["targets"], *cfg["sensors"])}
+    return None, plan
+
+
+def replay_mixed(d):
+    """The same configuration on the same real classes with plain floats."""
+    from resonaate.common.exceptions import MissingEphemerisError
+
+    cfg = MIX[d["tier"]]
+
+    def choose(name):
+        if name in ("rt_targets", "rt_sensors"):
+            return bool(d[name])
+        _h, s, u = name.split("_")
+        return int(u) in d["rows"].get(s, [])
+
+    out = _run_mixed(cfg, choose, concrete=True)
+    stop, plan = _mix_expect(cfg, d)
+    problems = []
+    if out["err"] is not None and not isinstance(out["err"], MissingEphemerisError):
+        problems.append(f"step {out['err_step']}: {type(out['err']).__name__}: {out['err']}")
+    elif out["err_step"] != stop:
+        problems.append(f"MissingEphemerisError at step {out['err_step']}, but the first step with a registered agent lacking a record is {stop}")
+    for s, snap in enumerate(out["snaps"], start=1):
+        for u, (st, t_agent, t_clock) in snap.items():
+            if s not in plan:
+                problems.append(f"step {s} completed although an imported agent has no record")
+                break
+            want = _mix_state(plan[s][u], s, u, True)
+            if [float(x) for x in st] != [float(x) for x in want]:
+                src = "another source"
+                for kind in ("row", "prop", "old"):
+                    for s2 in range(0, cfg["steps"] + 1):
+                        if [float(x) for x in st] == [float(x) for x in _mix_state(kind, s2, u, True)]:
+                            src = {"row": f"the database record of step {s2}", "prop": f"its own propagation of step {s2}", "old": "its initial state"}[kind]
+                problems.append(f"step {s}: agent {u} ({'imported' if plan[s][u] == 'row' else 'realtime'}) holds {src} instead of "
+                                f"{'the database record' if plan[s][u] == 'row' else 'its propagated state'} of step {s}")
+            if abs(t_agent - t_clock) > 1e-4:
+                problems.append(f"step {s}: agent {u} at t={t_agent}, clock at {t_clock}")
+    return bool(problems), {"flags": {"target_realtime_propagation": d["rt_targets"], "sensor_realtime_propagation": d["rt_sensors"]}, "records": d["rows"],
+                            "raised": repr(out["err"]), "problems": problems[:6]}
+
+
+def o5_mixed(rep, tier="quick"):
+    from resonaate.common.exceptions import MissingEphemerisError
+
+    cfg = MIX[tier]
+    ids = (*cfg["targets"], *cfg["sensors"])
+    universe = (*ids, *cfg["extra"])
+    res = explore(lambda: _run_mixed(cfg, lambda n: bool(boolean(n))), max_paths=20000, max_depth=60, catch=_HARNESS_EXC)
+    rep.note(f"paths={len(res)}")
+    B = z3.Bool
+    imp = {u: z3.Not(B("rt_targets") if u in cfg["targets"] else B("rt_sensors")) for u in ids}
+
+    def missing(s):
+        return z3.Or(*[z3.And(imp[u], z3.Not(B(f"has_{s}_{u}"))) for u in ids])
+
+    def inputs(m):
+        g = lambda n: bool(mval(m, B(n)))  # noqa: E731
+        return {"tier": tier, "rt_targets": g("rt_targets"), "rt_sensors": g("rt_sensors"),
+                "rows": {str(s): [u for u in universe if g(f"has_{s}_{u}")] for s in range(1, cfg["steps"] + 1)}}
+
+    what = ("after every step each imported agent (group flag false) holds exactly the importer record of that agent and epoch and each realtime agent its propagated state; the run stops with "
+            "MissingEphemerisError at the first step at which an imported agent has no record, and only then")
+    classes = {}
+    for n, r in enumerate(res, start=1):
+        if r.exc is not None:
+            rep.error(f"exception#{n}", repr(r.exc))
+            continue
+        o = r.out
+        goals = []
+        for s, snap in enumerate(o["snaps"], start=1):
+            goals.append(z3.Not(missing(s)))
+            for u, (st, t_agent, t_clock) in snap.items():
+                row, prop = _mix_state("row", s, u, False), _mix_state("prop", s, u, False)
+                goals.append(z3.And(*[(x.t if isinstance(x, SReal) else rv(x)) == z3.If(imp[u], a.t, b.t) for x, a, b in zip(st, row, prop)]))
+                goals.append(z3.BoolVal(abs(t_agent - t_clock) < 1e-4))
+        if o["err"] is not None:
+            goals.append(missing(o["err_step"]) if isinstance(o["err"], MissingEphemerisError) else z3.BoolVal(False))
+        if len(rep.violations) < 3:  # (three replayed counterexamples are reported; the remaining paths of a broken tree add nothing)
+            rep.prove(f"mixed#{n}", z3.And(*goals), r.constraints, inputs=inputs, replay=replay_mixed, sample=what)
+        key = (o["rt_t"], o["rt_s"], o["err_step"] is not None, any(has and u in cfg["extra"] for (_s, u), has in o["consulted"].items()))
+        classes.setdefault(key, r)
+    # vacuity: every mix, with and without a gap, with unrelated records in the database
+    for (rt_t, rt_s, gap, unrelated), r in sorted(classes.items(), key=str):
+        rep.reachable(f"class[targets {'realtime' if rt_t else 'imported'}, sensors {'realtime' if rt_s else 'imported'}, {'gap' if gap else 'complete'}, "
+                      f"{'with' if unrelated else 'without'} unrelated records]", r.constraints)
+    need = [(a, b, g) for a in (True, False) for b in (True, False) for g in (True, False) if not (a and b and g)]
+    lacking = [k for k in need if not any(c[:3] == k for c in classes)]
+    if lacking and not rep.violations:
+        rep.error("reach", f"configuration classes (targets realtime, sensors realtime, gap) not reached: {lacking}")
+
+
+# ==================================================================================
+# O6: the records of an epoch are exactly the ones the real query selects (bit-exact Julian dates)
+# ==================================================================================
+EPOCH_DAYS = {"quick": ("2021-03-30",), "thorough": ("2021-03-30", "2018-12-01", "2024-02-28")}
+EPOCH_CFG = {"quick": [("obs", 60, 12), ("obs", 300, 12), ("ephem", 60, 12)], "thorough": [("obs", 60, 40), ("obs", 300, 40), ("ephem", 60, 40), ("ephem", 300, 40)]}
+
+
+class _Iso(IsoToken):
+    """isoformat() token that also orders: ISO strings of one format order as their instants do."""
+
+    def __lt__(self, o):
+        return SBool(self.n < o.n)
+
+    def __le__(self, o):
+        return SBool(self.n <= o.n)
+
+    def __gt__(self, o):
+        return SBool(self.n > o.n)
+
+    def __ge__(self, o):
+        return SBool(self.n >= o.n)
+
+    __hash__ = IsoToken.__hash__
+
+
+class _DayDT(SDateTime):
+    """The calendar model with the day kept concrete: an addition forks over 'same day / next day' (shifts stay below one day)."""
+
+    def isoformat(self, sep="T", timespec="auto"):
+        return _Iso(self.tot, z3.IntVal(0))
+
+    def _shift(self, secs):
+        sod = z3.simplify(self.sod + secs)
+        if cur().branch(sod <= 86399):
+            return _DayDT._of(self.n, sod)  # noqa: SLF001
+        return _DayDT._of(z3.simplify(self.n + 1), z3.simplify(sod - 86400))  # noqa: SLF001
+
+
+def _day_number(day):
+    return (_dt.date.fromisoformat(day) - _dt.date(1901, 1, 1)).days
+
+
+def _run_epoch(kind, day, dt, kmax):
+    """A database written by a RESONAATE run that started at second `sod0` of `day` (epoch rows as the real clock writes them: timestamp of the instant, Julian date
+    ScenarioTime.convertToJulianDate(start)); one record at step ki; the real importer / engine asks for the epoch of step k."""
+    import types
+
+    from resonaate.common.exceptions import MissingEphemerisError
+    from resonaate.dynamics import importer as IM
+    from resonaate.tasking.engine import centralized_engine as CE
+
+    with time_env([("resonaate.tasking.engine.centralized_engine", {"float": fp.fp_float}), ("resonaate.dynamics.importer", {"float": fp.fp_float})]) as ns:
+        sod0, k, ki = integer("sod0"), integer("k"), integer("ki")
+        assume(sod0.t >= 0, sod0.t <= 86399, k.t >= 1, k.t <= kmax, ki.t >= 1, ki.t <= kmax)
+        t0 = _DayDT._of(z3.IntVal(_day_number(day)), sod0.t)  # noqa: SLF001
+        js = ns.stardate.datetimeToJulianDate(t0)  # ScenarioClock.__init__: julian_date_start
+        jd_i = fp.fp_float(ns.ScenarioTime(fp.from_int(ki.t * dt, 0, kmax * dt)).convertToJulianDate(js))  # ScenarioClock.__init__ / julian_date_epoch: the epoch row of step ki
+        iso_i = (t0 + STimeDelta(seconds=ki.t * dt)).isoformat(timespec="microseconds")
+        epoch = t0 + STimeDelta(seconds=k.t * dt)  # ScenarioClock.datetime_epoch at step k
+        T = _tables()
+        table = T[kind]
+        cols = {(table, "julian_date"): jd_i, (T["epoch"], "julian_date"): jd_i, (T["epoch"], "timestampISO"): iso_i, (table, "target_id"): 11, (table, "sensor_id"): 21, (table, "agent_id"): 11}
+        log = logging.getLogger("symx")
+        log.setLevel(logging.CRITICAL)
+        logging.getLogger("resonaate").setLevel(logging.CRITICAL + 1)
+        if kind == "obs":
+            row = _stored_observation(0, 21, 11, (1021.0, 2021.0, 3000.0))
+        else:
+            row = Row(11, concrete=True)
+
+        class IDB:
+            def getData(self, query, multi=True):
+                want = "Observation" if kind == "obs" else "TruthEphemeris"
+                if _entity_name(query) != want:
+                    raise Unsupported(f"query over {_entity_name(query)}")
+                return [row] if bool(_where(query.whereclause, cols)) else []
+
+        if kind == "obs":
+            eng = object.__new__(CE.CentralizedTaskingEngine)
+            eng.logger = log
+            eng._importer_db = IDB()
+            eng._sensor_store = {21: _bare_sensing_agent(_real_measurement())}
+            with shadow(CE, ray=types.SimpleNamespace(get=lambda h: h)):
+                out = eng.loadImportedObservations(epoch)
+            return {"selected": len(out) == 1 and out[0] is row, "none": len(out) == 0, "k": k, "ki": ki}
+        got = []
+        with shadow(IM, ImporterDatabase=lambda *a, **kw: IDB()):
+            imp = IM.EphemerisImporter("stub")
+        imp.registerAgent(types.SimpleNamespace(simulation_id=11, realtime=False, importState=got.append))
+        missing = False
+        try:
+            imp.importEphemerides(epoch)
+        except MissingEphemerisError:
+            missing = True
+        return {"selected": got == [row] and not missing, "none": missing and not got, "k": k, "ki": ki}
+
+
+def replay_epoch(d):
+    """The same database as a real (in-memory) SQLite importer database read through the real ImporterDatabase by the real importer / engine."""
+    import types
+
+    from resonaate.common.exceptions import MissingEphemerisError
+    from resonaate.data.agent import AgentModel
+    from resonaate.data.ephemeris import TruthEphemeris
+    from resonaate.data.epoch import Epoch
+    from resonaate.data.importer_database import ImporterDatabase
+    from resonaate.data.observation import Observation
+    from resonaate.dynamics import importer as IM
+    from resonaate.physics.time.stardate import ScenarioTime, datetimeToJulianDate
+    from resonaate.tasking.engine import centralized_engine as CE
+
+    logging.getLogger("resonaate").setLevel(logging.CRITICAL + 1)
+    start = _dt.datetime.fromisoformat(d["day"]) + _dt.timedelta(seconds=d["sod0"])
+    dt, k, ki, kmax = d["dt"], d["k"], d["ki"], d["kmax"]
+    js = datetimeToJulianDate(start)
+    db = ImporterDatabase("sqlite://", logger=logging.getLogger("symx"))
+    jds = {}
+    for s in range(kmax + 1):  # the epoch rows as ScenarioClock.__init__ writes them
+        jds[s] = float(ScenarioTime(s * dt).convertToJulianDate(js))
+        db._insertData(Epoch(julian_date=jds[s], timestampISO=(start + _dt.timedelta(seconds=s * dt)).isoformat(timespec="microseconds")))  # noqa: SLF001
+    db._insertData(AgentModel(unique_id=11, name="target"), AgentModel(unique_id=21, name="sensor"))  # noqa: SLF001
+    epoch = start + _dt.timedelta(seconds=k * dt)
+    if d["kind"] == "obs":
+        meas = _real_measurement()
+        db._insertData(Observation(julian_date=jds[ki], target_id=11, sensor_id=21, sensor_type="Optical", sensor_eci=np.array([1021.0, 2021.0, 3000.0, 0.0, 0.0, 0.0]),  # noqa: SLF001
+                                   measurement=meas, azimuth_rad=0.1, elevation_rad=0.2))
+        eng = object.__new__(CE.CentralizedTaskingEngine)
+        eng.logger = logging.getLogger("symx")
+        eng._importer_db = db
+        eng._sensor_store = {21: _bare_sensing_agent(meas)}
+        want = [(21, 11, jds[ki])] if k == ki else []
+        try:
+            with shadow(CE, ray=types.SimpleNamespace(get=lambda h: h)):
+                out = eng.loadImportedObservations(epoch)
+            got = [(o.sensor_id, o.target_id, float(o.julian_date)) for o in out]
+            bad = got != want
+            detail = {"returned": got, "expected": want}
+        except Exception as e:  # noqa: BLE001
+            bad, detail = True, {"raised": repr(e)[:200], "expected": want}
+    else:
+        db._insertData(TruthEphemeris(julian_date=jds[ki], agent_id=11, pos_x_km=7000.0, pos_y_km=1.0, pos_z_km=2.0, vel_x_km_p_sec=0.0, vel_y_km_p_sec=7.5, vel_z_km_p_sec=0.0))  # noqa: SLF001
+        got = []
+        with shadow(IM, ImporterDatabase=lambda *a, **kw: db):
+            imp = IM.EphemerisImporter("stub")
+        imp.registerAgent(types.SimpleNamespace(simulation_id=11, realtime=False, importState=lambda e: got.append((e.agent_id, float(e.julian_date)))))
+        raised = None
+        other = None
+        try:
+            imp.importEphemerides(epoch)
+        except MissingEphemerisError as e:
+            raised = repr(e)[:160]
+        except Exception as e:  # noqa: BLE001
+            other = repr(e)[:200]
+        want = [(11, jds[ki])] if k == ki else []
+        bad = got != want or (raised is None) != (k == ki) or other is not None
+        detail = {"imported": got, "expected": want, "MissingEphemerisError": raised, "other_exception": other}
+    db.engine.dispose()
+    detail.update(start=start.isoformat(), dt=dt, step_asked=k, step_of_record=ki, epoch=epoch.isoformat(), record_julian_date=repr(jds[ki]),
+                  datetimeToJulianDate_of_epoch=repr(float(datetimeToJulianDate(epoch))))
+    return bad, detail
+
+
+def _prove_split(rep, label, goal, cons, kt, kmax, inputs, replay, what):
+    """rep.prove with a complete case split over the step index when the plain query is not decided in time (each case is a solver query; the cases cover 1 <= k <= kmax,
+    which is among the constraints).  A model is replayed on the real code before it counts."""
+    from symx.core import Verdict
+
+    def candidate(v, lab):
+        data = inputs(v.model)
+        try:
+            reproduced, detail = replay(data)
+        except Exception as e:  # noqa: BLE001
+            reproduced, detail = False, f"replay raised {type(e).__name__}: {e}"
+        rep._item(lab, "prove", v, {"counterexample": data, "replay": {"reproduced": reproduced, "detail": detail}})  # noqa: SLF001
+        if reproduced:
+            rep.concrete_violation(lab, data, detail)
+        else:
+            rep.error(lab, f"counterexample does not reproduce on the real code: {detail}")
+        return False
+
+    v = solve(list(cons) + [z3.Not(goal)], 20000)
+    rep.sample({"obligation": f"{rep.ob}:{label}", "verdict": v.status, "what": what})
+    if v.status == "unsat":
+        rep._item(label, "prove", v)  # noqa: SLF001
+        return True
+    if v.status == "sat":
+        return candidate(v, label)
+    secs, open_cases = v.secs, []
+    for k0 in range(1, kmax + 1):
+        vk = solve(list(cons) + [z3.Not(goal), kt == k0], 12000)
+        secs += vk.secs
+        rep._item(f"{label}|k={k0}", "case", vk)  # noqa: SLF001
+        if vk.status == "sat":
+            return candidate(vk, f"{label}|k={k0}")
+        if vk.status != "unsat":
+            open_cases.append(k0)
+    if not open_cases:
+        rep._item(label, "prove", Verdict("unsat", None, secs, f"case split over k = 1..{kmax}: every case unsat"))  # noqa: SLF001
+        return True
+    rep.undecided(label, f"plain query and the cases k in {open_cases} not decided in time")
+    return None
+
+
+def o6_epoch(rep, kind, day, dt, kmax):
+    with fp.mode("exact"):
+        res = explore(lambda: _run_epoch(kind, day, dt, kmax), max_paths=64, max_depth=80, branch_timeout_ms=5000, catch=(Exception,))
+    rep.note(f"paths={len(res)}")
+
+    def inputs(m):
+        g = lambda n: mval(m, z3.Int(n))  # noqa: E731
+        return {"kind": kind, "day": day, "sod0": g("sod0"), "dt": dt, "k": g("k"), "ki": g("ki"), "kmax": kmax}
+
+    what = ("for every start second of the day and every pair of steps (k, ki): the record stored for the epoch of step ki (Julian date written by the clock arithmetic) is "
+            + ("returned by loadImportedObservations" if kind == "obs" else "imported by importEphemerides") + " at the epoch of step k iff ki == k"
+            + ("" if kind == "obs" else "; MissingEphemerisError otherwise"))
+    seen = set()
+    # paths on which the record was not delivered first: a wrong look-up key shows there
+    order = sorted(range(len(res)), key=lambda i: (res[i].exc is None and bool(res[i].out["selected"]), i))
+    kt = z3.Int("k")
+    for n in order:
+        r = res[n]
+        if rep.violations:
+            break  # (one replayed counterexample is reported; the remaining paths of a broken tree add nothing)
+        if r.exc is not None:
+            if isinstance(r.exc, _HARNESS_EXC):
+                rep.error(f"exception#{n}", repr(r.exc))
+            else:
+                _prove_split(rep, f"raises#{n}", z3.BoolVal(False), r.constraints, kt, kmax, inputs, replay_epoch, f"must not raise {type(r.exc).__name__}")
+            continue
+        o = r.out
+        same = o["k"].t == o["ki"].t
+        goal = same if o["selected"] else (z3.Not(same) if o["none"] else z3.BoolVal(False))
+        cls = "delivered" if o["selected"] else "not delivered"
+        _prove_split(rep, f"epoch#{n}[{cls}]", goal, fp.sliced(r.path, goal), kt, kmax, inputs, replay_epoch, what)
+        if cls not in seen and not rep.violations:
+            if rep.reachable(f"reach[{cls}]#{n}", r.constraints, timeout_ms=30000) is not None:
+                seen.add(cls)
+    if not rep.violations and seen != {"delivered", "not delivered"}:
+        rep.error("reach", f"outcome classes reached: {sorted(seen)}")
+
+
+# ==================================================================================
+# O7: stored observations reach the filter update of their target at their epoch (real assess + real stepForward)
+# ==================================================================================
+ROUTE = {"quick": {"steps": 2, "rows": 2}, "thorough": {"steps": 3, "rows": 2}}
+ROUTE_TARGETS, ROUTE_SENSORS = (11, 12), (21, 22)
+
+
+def _run_routing(cfg, choose):
+    """Real stepForward (estimation on) with a real CentralizedTaskingEngine that takes its observations from the importer database only (realtime_obs false).
+    Per step `rows` stored observations (row j by sensor ROUTE_SENSORS[j]); choose() decides presence and target of each."""
+    import types
+
+    from resonaate.agents import sensing_agent as SA
+    from resonaate.agents import target_agent as TA
+    from resonaate.parallel import agent_propagation as AP
+    from resonaate.physics.time.stardate import ScenarioTime, datetimeToJulianDate
+    from resonaate.scenario import clock as CK
+    from resonaate.scenario import scenario as SC
+    from resonaate.scenario.config.propagation_config import PropagationConfig
+    from resonaate.tasking.engine import centralized_engine as CE
+
+    nsteps, nrows = cfg["steps"], cfg["rows"]
+    log = logging.getLogger("symx")
+    log.setLevel(logging.CRITICAL)
+    logging.getLogger("resonaate").setLevel(logging.CRITICAL + 1)
+    clock = object.__new__(CK.ScenarioClock)
+    clock.datetime_start, clock.julian_date_start = MIX_START, datetimeToJulianDate(MIX_START)
+    clock.dt_step, clock.time, clock.initial_time, clock.logger = ScenarioTime(MIX_DT), ScenarioTime(0), ScenarioTime(0), log
+    meas = {u: _real_measurement() for u in ROUTE_SENSORS}
+
+    def agent(base, aid):
+        a = object.__new__(base)
+        a.__dict__.update(_id=aid, _realtime=True, _time=clock.time, _dt_step=clock.dt_step, julian_date_start=clock.julian_date_start, datetime_start=clock.datetime_start,
+                          _dynamics="dynamics-token", _station_keeping=[], propagate_event_queue=[], sensor_time_bias_event_queue=[], _logger=log,
+                          _truth_state=_mix_state("old", 0, aid, True), _previous_state=None, _ecef_state=None, _lla_state=None)
+        if base is SA.SensingAgent:
+            a._sensors = types.SimpleNamespace(measurement=meas[aid], host=a)
+        return a
+
+    stored = {}  # step -> rows the database holds for that epoch
+    T = _tables()
+
+    def rows_of(s):
+        if s not in stored:
+            stored[s] = []
+            for j in range(nrows):
+                if choose(f"obs_{s}_{j}"):
+                    t = ROUTE_TARGETS[0] if choose(f"tgt_{s}_{j}") else ROUTE_TARGETS[1]
+                    sen = ROUTE_SENSORS[j % len(ROUTE_SENSORS)]
+                    ob = _stored_observation(10 * s + j, sen, t, (1000.0 + sen + s, 2000.0 + sen, 3000.0))
+                    ob.julian_date = float(ScenarioTime(s * MIX_DT).convertToJulianDate(clock.julian_date_start))
+                    stored[s].append(ob)
+        return stored[s]
+
+    class IDB:
+        def getData(self, query, multi=True):
+            if _entity_name(query) != "Observation":
+                raise Unsupported(f"importer query over {_entity_name(query)}")
+            out = []
+            for s in range(0, nsteps + 1):
+                jd = float(ScenarioTime(s * MIX_DT).convertToJulianDate(clock.julian_date_start))
+                iso = (MIX_START + _dt.timedelta(seconds=s * MIX_DT)).isoformat(timespec="microseconds")
+                cols = {(T["epoch"], "timestampISO"): iso, (T["epoch"], "julian_date"): jd, (T["obs"], "julian_date"): jd}
+                if s >= 1 and bool(_where(query.whereclause, cols)):
+                    out.extend(rows_of(s))
+            return out
+
+    class Events:
+        def getData(self, query, multi=True):
+            return [] if multi else None
+
+    class Executor:
+        def __init__(self):
+            self.jobs = []
+
+        def enqueueJob(self, reg):
+            self.jobs.append(reg)
+
+        def join(self):
+            jobs, self.jobs = self.jobs, []
+            for reg in jobs:
+                if isinstance(reg, AP.PropagateRegistration):
+                    sub = reg.generateSubmission()
+                    reg.processResults(AP.PropagateResult(agent_id=sub.agent_id, final_time=sub.final_time, prev_state=sub.init_eci, final_eci=_mix_state("prop", 0, sub.agent_id, True)))
+
+    eng = object.__new__(CE.CentralizedTaskingEngine)
+    eng.__dict__.update(logger=log, _unique_id=1, sensor_list=sorted(ROUTE_SENSORS), target_list=sorted(ROUTE_TARGETS), _reward=types.SimpleNamespace(metrics=[]), _decision=None,
+                        _observations=[], _saved_observations=[], _missed_observations=[], _saved_missed_observations=[], sensor_changes={}, _database=Events(), _importer_db=IDB(),
+                        _realtime_obs=False, _target_store={}, _sensor_store={}, _estimate_store={})
+    eng.target_indices = {u: i for i, u in enumerate(eng.target_list)}
+    eng.sensor_indices = {u: i for i, u in enumerate(eng.sensor_list)}
+    updates = []
+
+    class Update:  # stands for EstUpdateRegistration: what the filter of `agent` is given
+        def __init__(self, est_agent, handle, observations):
+            updates.append((step[0], est_agent.simulation_id, list(observations)))
+
+    sc = object.__new__(SC.Scenario)
+    sc.clock, sc.current_julian_date, sc.database, sc.logger = clock, clock.julian_date_epoch, Events(), log
+    sc.scenario_config = types.SimpleNamespace(propagation=PropagationConfig(truth_simulation_only=False))
+    sc.target_agents = {u: agent(TA.TargetAgent, u) for u in ROUTE_TARGETS}
+    sc._sensor_agents = {u: agent(SA.SensingAgent, u) for u in ROUTE_SENSORS}
+    sc._estimate_agents = {u: types.SimpleNamespace(simulation_id=u) for u in ROUTE_TARGETS}
+    sc._ephem_importer, sc._stepped_epochs = None, {}
+    sc._agent_propagator = sc._estimate_predictor = sc._estimate_updater = Executor()
+    sc._target_store, sc._sensor_store, sc._estimate_store = {}, {}, {}
+    sc._tasking_engines = {1: eng}
+    step = [0]
+    nul = lambda *a, **k: None  # noqa: E731
+    behav = types.SimpleNamespace(getConfig=lambda: types.SimpleNamespace(debugging=types.SimpleNamespace(ThreeSigmaObs=False)))
+    ray_stub = types.SimpleNamespace(put=lambda x: x, get=lambda h: h)
+    err = None
+    with shadow(SC, ray=ray_stub, EventStack=types.SimpleNamespace(logAndFlushEvents=nul), EstPredictRegistration=lambda a: a, EstUpdateRegistration=Update, BehavioralConfig=behav), \
+            shadow(CE, ray=ray_stub), shadow(AP, ReductionParams=types.SimpleNamespace(build=lambda d: None)), shadow(SA, eci2ecef=lambda x, when: x, ecef2lla=lambda x: x[:3]):
+        for s in range(1, nsteps + 1):
+            step[0] = s
+            try:
+                sc.stepForward()
+            except _HARNESS_EXC:
+                raise
+            except Exception as e:  # noqa: BLE001
+                err = (s, e)
+                break
+            rows_of(s)  # (a database content the code never asked for is still part of the configuration)
+    return {"updates": updates, "stored": stored, "err": err, "meas": meas}
+
+
+def _routing_problems(cfg, out):
+    """Independent oracle on one run: per completed step and target, the filter update gets exactly the observations stored for (that epoch, that target), in stored order,
+    each carrying its sensor's measurement."""
+    problems = []
+    if out["err"] is not None:
+        return [f"step {out['err'][0]}: {type(out['err'][1]).__name__}: {out['err'][1]}"]
+    for s in range(1, cfg["steps"] + 1):
+        for t in ROUTE_TARGETS:
+            got = [u for u in out["updates"] if u[0] == s and u[1] == t]
+            want = [ob for ob in out["stored"].get(s, []) if ob.target_id == t]
+            if len(got) != 1:
+                problems.append(f"step {s}: {len(got)} filter updates for target {t}")
+                continue
+            if [id(x) for x in got[0][2]] != [id(x) for x in want]:
+                problems.append(f"step {s}: the filter of target {t} received observations {[(x.sensor_id, x.target_id, x._row_index) for x in got[0][2]]}, "
+                                f"stored for that epoch and target: {[(x.sensor_id, x.target_id, x._row_index) for x in want]}")
+            elif any(x.measurement is not out["meas"][x.sensor_id] for x in want):
+                problems.append(f"step {s}: an observation of target {t} does not carry its sensor's measurement")
+    return problems
+
+
+def replay_routing(d):
+    cfg = ROUTE[d["tier"]]
+    out = _run_routing(cfg, lambda name: bool(d["choices"].get(name, False)))
+    problems = _routing_problems(cfg, out)
+    return bool(problems), {"stored": {str(s): [(x.sensor_id, x.target_id) for x in rows] for s, rows in out["stored"].items()}, "problems": problems[:6]}
+
+
+def o7_routing(rep, tier="quick"):
+    cfg = ROUTE[tier]
+    res = explore(lambda: _run_routing(cfg, lambda n: bool(boolean(n))), max_paths=20000, max_depth=80, catch=_HARNESS_EXC)
+    rep.note(f"paths={len(res)}")
+    names = [f"{k}_{s}_{j}" for s in range(1, cfg["steps"] + 1) for j in range(cfg["rows"]) for k in ("obs", "tgt")]
+
+    def inputs(m):
+        return {"tier": tier, "choices": {n: bool(mval(m, z3.Bool(n))) for n in names}}
+
+    what = ("at every step each target's filter update receives exactly the observations the importer database stores for that epoch and that target (in order, with the sensor's measurement); "
+            "observations of other epochs or targets never")
+    fullest = None
+    for n, r in enumerate(res, start=1):
+        if r.exc is not None:
+            rep.error(f"exception#{n}", repr(r.exc))
+            continue
+        if len(rep.violations) < 3:
+            rep.prove(f"routing#{n}", z3.BoolVal(not _routing_problems(cfg, r.out)), r.constraints, inputs=inputs, replay=replay_routing, sample=what)
+        size = sum(len(v) for v in r.out["stored"].values())
+        if fullest is None or size > fullest[0]:
+            fullest = (size, r)
+    if fullest is None or fullest[0] < cfg["steps"] * cfg["rows"]:
+        if not rep.violations:
+            rep.error("reach", "the configuration with every stored observation present was not reached")
+    else:
+        rep.reachable("class[all observations present]", fullest[1].constraints)
+
+
+REPLAYS = {"O1": replay_import, "O3": replay_observations, "O5": replay_mixed, "O7": replay_routing}
+
+
+def _epoch_obs(tier):
+    out = []
+    for kind, dt, kmax in EPOCH_CFG[tier]:
+        for day in EPOCH_DAYS[tier]:
+            name = f"O6[{kind},{day},dt={dt}]"
+            out.append(Ob(name, (lambda rep, a=(kind, day, dt, kmax): o6_epoch(rep, *a)),
+                          f"{'loadImportedObservations' if kind == 'obs' else 'importEphemerides'}: the record of an epoch is delivered at exactly that epoch (real query evaluated on bit-exact Julian dates; "
+                          f"start {day}, any second of the day, dt={dt} s, steps 1..{kmax})", 900))
+            REPLAYS[name] = replay_epoch
+    return out
+
+
+for _tier in ("quick", "thorough"):
+    _epoch_obs(_tier)
 
 
 def obligations(tier):
@@ -389,4 +1145,8 @@ def obligations(tier):
         Ob("O1", o1_import, "importEphemerides: every registered agent gets its own row; MissingEphemerisError iff a registered agent has no row", 900),
         Ob("O3", o3_observations, "loadImportedObservations returns each distinct stored observation once with measurement metadata", 600),
         Ob("O4", o4_readonly, "ImporterDatabase public write methods raise", 60),
+        Ob("O5", lambda rep: o5_mixed(rep, tier), "Scenario.stepForward with every mix of realtime / imported targets and sensors: imported agents hold their record, realtime agents their propagation, "
+                                                  "MissingEphemerisError at the first gap", 900),
+        Ob("O7", lambda rep: o7_routing(rep, tier), "stepForward + CentralizedTaskingEngine.assess (imported observations only): every stored observation of the epoch reaches the filter update of its target", 600),
+        *_epoch_obs(tier),
     ]
